@@ -1,12 +1,15 @@
 package c15
 
 import (
+	"encoding/binary"
+
 	"fmt"
 	"runtime"
 	"runtime/debug"
 	"strings"
 	"sync"
 	"testing"
+	"verif/internal/wasiabi"
 
 	"verif/internal/evid"
 )
@@ -26,6 +29,10 @@ const (
 	// sock_recv with RI_RECV_PEEK and an EMPTY iovec list (ri_data_len = 0) still interprets the 8
 	// bytes at ri_data as an iovec and stores the peeked data through it.
 	idRecvPeekNoIovec = "C15-sock-recv-peek-no-iovec"
+	// fd_read/fd_pread/sock_recv keep a VIEW of the iovec array while they fill the buffers: an
+	// iovec whose output buffer overlaps the array rewrites later entries, and the following data
+	// goes to an address the array did not designate when the call was made.
+	idIovOverlap = "C15-iovec-array-overwritten-by-own-buffer"
 )
 
 // pollWrapMin is the smallest nsubscriptions whose product with the subscription size (48)
@@ -52,6 +59,9 @@ func knownInputs() map[string]*Case {
 		idSetTimesNilFS: {Engine: "interpreter", Pages: 1, Fn: "fd_filestat_set_times", Args: []uint64{0, 0, 0, 0}},
 		idRecvPeekNoIovec: {Engine: "interpreter", Pages: 1, Sock: true, State: []StateOp{{Op: "accept"}},
 			Mem: []Piece{{Off: 280, Hex: "0001000010000000"}}, Fn: "sock_recv", Args: []uint64{6, 280, 0, 1, 296, 312}},
+		idIovOverlap: {Engine: "interpreter", Pages: 1, Sock: true, State: []StateOp{{Op: "accept"}},
+			Mem: []Piece{{Off: 65504, Hex: "0001000010000000f0ff00000100000028010000100000004001000010000000"}},
+			Fn:  "sock_recv", Args: []uint64{6, 65504, 4, 0, 344, 360}},
 		idRenumberHuge: {Engine: "interpreter", Pages: 1, State: openF0(), Fn: "fd_renumber", Args: []uint64{5, 1 << 30}},
 	}
 }
@@ -60,7 +70,7 @@ func knownClasses(t *testing.T) {
 	knownOnce.Do(func() {
 		shard, _ := evid.Shard()
 		in := knownInputs()
-		for _, id := range []string{idPollWrap, idRenumberSelf, idSetTimesNilFS, idRecvPeekNoIovec, idRenumberHuge} {
+		for _, id := range []string{idPollWrap, idRenumberSelf, idSetTimesNilFS, idRecvPeekNoIovec, idIovOverlap, idRenumberHuge} {
 			c := in[id]
 			if id == idRenumberHuge && shard != 0 {
 				// other shards only need to know whether the class is live: a 128 MiB table shows it
@@ -105,8 +115,13 @@ func renumberable(c *Case, info map[int32]fdInfo, fd int32) bool {
 	if !ok || !in.present() {
 		return false
 	}
-	if fd <= 2 || fd == fdTmp || fd == fdRO || (c.Sock && fd == fdListener) {
+	if fd == fdTmp || fd == fdRO || (c.Sock && fd == fdListener) {
 		return false // preopens are refused by fd_renumber
+	}
+	if fd <= 2 {
+		// a standard stream (preopen, refused) - unless the guest closed it and the slot was re-used
+		// by an opened file, directory or connection
+		return in.StatErr == 0 && (in.Stat[0] == 3 || in.Stat[0] == 4 || in.Stat[0] == 6)
 	}
 	return true
 }
@@ -151,6 +166,31 @@ func applyExclusions(c *Case, info map[int32]fdInfo) {
 			c.Args[1] = renumberFar
 		}
 	}
+}
+
+// iovOutputOverlapsArray reports whether, for a read-type call, the output buffer of an iovec
+// overlaps the iovec array of the same call (as found in guest memory when the call is made).
+func iovOutputOverlapsArray(fn *wasiabi.Func, args []uint64, mem []byte) bool {
+	for i, p := range fn.Params {
+		if p.Role != wasiabi.PtrIovsOut || i >= len(args) {
+			continue
+		}
+		base := uint64(uint32(args[i]))
+		count := uint64(uint32(args[p.Pair]))
+		n := uint64(0) // iovecs that lie in memory
+		for n < count && base+(n+1)*8 <= uint64(len(mem)) {
+			n++
+		}
+		lo, hi := base, base+n*8
+		for k := uint64(0); k < n; k++ {
+			buf := uint64(binary.LittleEndian.Uint32(mem[base+k*8:]))
+			l := uint64(binary.LittleEndian.Uint32(mem[base+k*8+4:]))
+			if l > 0 && buf < hi && buf+l > lo {
+				return true
+			}
+		}
+	}
+	return false
 }
 
 // classOfCase names the known class a failing replayed case belongs to (by its arguments).
